@@ -37,6 +37,8 @@ func runC07(c *core.Ctx) {
 	c06R4(c, "C07.R4")
 	c02R8(c, "C07.R5")
 	c06Limit(c, "C07.R6")
+	c06Survey(c, "C07.R7")
+	c06R2(c) // shared with C06 (reported as C06.R2)
 }
 
 func allowConst(c *core.Ctx, name string) int64 {
@@ -242,6 +244,24 @@ func c07R3(c *core.Ctx) {
 		notExtendPred(c, site.key),
 		hasPermPred(c, site.key, "AllowLoad", true),
 	}
+	// every successful return of the handler has been through the load-permission decision: a
+	// SUBSCRIBE that is acknowledged (nil) without HasPermission(AllowLoad) having been consulted
+	// skipped the replay (e.g. an early return for a subscription the connection already holds)
+	loadBit := allowConst(c, "AllowLoad")
+	isLoadTest := func(i ssa.Instruction) bool {
+		if !eng.IsCallTo(i, idHasPermission) {
+			return false
+		}
+		a := eng.CallArgs(i.(ssa.CallInstruction).Common())
+		k, ok := eng.ConstInt(a[1])
+		return ok && k == loadBit && site.key != nil && eng.SameValue(a[0], site.key)
+	}
+	okRet := func(i ssa.Instruction) bool {
+		ret, ok := i.(*ssa.Return)
+		return ok && len(ret.Results) == 1 && eng.IsNilConst(ret.Results[0])
+	}
+	early, wp := eng.Reach(f, nil, isLoadTest, okRet)
+	c.Check(!early, rule, name+":every acknowledged subscribe reaches the replay decision", f.Pos(), "no success return before HasPermission(AllowLoad) is consulted", fmt.Sprintf("OnSubscribe can return success without consulting the load permission, i.e. without replaying the requested history (e.g. an early return when the connection already holds the subscription): %v", wp))
 	qs := eng.Calls(f, false, idStorageQuery)
 	if len(qs) == 1 {
 		q := qs[0]
